@@ -80,6 +80,7 @@ class H:
         py_flags: Sequence[str] = (),
         hash_seeds: Sequence[str] = (),
         replay_env: Optional[Dict[str, str]] = None,
+        witness_only: bool = False,
     ) -> None:
         self.name = name
         self.fn = fn
@@ -99,6 +100,8 @@ class H:
         self.hash_seeds = list(hash_seeds)
         #: a counterexample is replayed a second time with these environment variables set (C12: on a real asyncio loop)
         self.replay_env = dict(replay_env or {})
+        #: the harness exists only so that the witness of a known finding can be replayed; it is not checked symbolically
+        self.witness_only = witness_only
 
     def bounds_text(self) -> List[str]:
         return [p.describe() for p in self.params] + ["pre: " + e for e in self.extra_pre]
